@@ -236,6 +236,21 @@ pub fn check(case: &Case) -> Verdict {
             }
         };
     }
+    // the operation, and then the formatting of what it produced (a value
+    // that comes out of an operation can differ from any freshly built one:
+    // the NaN of an invalid operation carries a sign bit)
+    macro_rules! then_format {
+        ($what:expr, $t:expr, $e:expr) => {
+            match catch(|| $e) {
+                Err(p) => return Verdict::Fail(format!("{} panicked: {} ({:?})", $what, p, case)),
+                Ok(r) => {
+                    if let Err(p) = catch(|| (($t.to_string)(r), ($t.debug)(r))) {
+                        return Verdict::Fail(format!("formatting the result of {} panicked: {} ({:?})", $what, p, case));
+                    }
+                }
+            }
+        };
+    }
     match case {
         Case::Convert { ty, from, to, a } => {
             ty_ok!(*ty);
@@ -249,7 +264,7 @@ pub fn check(case: &Case) -> Verdict {
             mags.push(ra.mul(c.scale(*ty, *from)).div(c.scale(*ty, *to)));
             mags.push(c.scale(*ty, *from).div(c.scale(*ty, *to)));
             let Dm::Ok { near } = domain(mags) else { return Verdict::Discard("outside the decimal domain") };
-            must_not_panic!("convert", (rv.convert)((a, *from), *to));
+            then_format!("convert", t, (rv.convert)((a, *from), *to));
             must_not_panic!("equiv_amount", (rv.equiv_amount)((a, *from), *to));
             pass("convert", near || special(a))
         }
@@ -276,8 +291,8 @@ pub fn check(case: &Case) -> Verdict {
                 must_not_panic!("<,<=,>,>=", ((cmp.lt)(qa, qb), (cmp.le)(qa, qb), (cmp.gt)(qa, qb), (cmp.ge)(qa, qb)));
                 must_not_panic!("partial_cmp", (cmp.partial_cmp)(qa, qb));
             }
-            must_not_panic!("+", (t.add)(qa, qb));
-            must_not_panic!("-", (t.sub)(qa, qb));
+            then_format!("+", t, (t.add)(qa, qb));
+            then_format!("-", t, (t.sub)(qa, qb));
             // ratio: non-zero divisor, and (decimal) the divisor in the
             // dividend's unit and the quotient inside the range
             let div_ok = if cfg!(feature = "dec") {
@@ -305,10 +320,10 @@ pub fn check(case: &Case) -> Verdict {
             let Dm::Ok { near } = domain(mags) else { return Verdict::Discard("outside the decimal domain") };
             let q = (a, *unit);
             must_not_panic!("constructors", ((t.new_roundtrip)(q), (t.amt_mul_unit)(q), (t.unit_mul_amt)(q)));
-            must_not_panic!("k * q", (t.amt_mul_qty)(k, q));
-            must_not_panic!("q * k", (t.qty_mul_amt)(q, k));
+            then_format!("k * q", t, (t.amt_mul_qty)(k, q));
+            then_format!("q * k", t, (t.qty_mul_amt)(q, k));
             if cfg!(not(feature = "dec")) || !rk.is_zero() {
-                must_not_panic!("q / k", (t.qty_div_amt)(q, k));
+                then_format!("q / k", t, (t.qty_div_amt)(q, k));
             }
             pass("scale", near || special(a) || special(k))
         }
@@ -329,7 +344,7 @@ pub fn check(case: &Case) -> Verdict {
                 }
                 near = near_limit(&[e.ma.clone(), e.mb.clone(), e.m.clone(), e.m.div(&ops::smallest_scale(o.r))]);
             }
-            must_not_panic!(o.name, (o.run)(*form, (a, *ua), (b, *ub)));
+            then_format!(o.name, c.ty(o.r), (o.run)(*form, (a, *ua), (b, *ub)));
             pass(if o.is_mul { "derived-mul" } else { "derived-div" }, near || special(a) || special(b))
         }
         Case::Rate { rate, ta, tu, pm, pu, v, vu_p, vu_t } => {
